@@ -194,6 +194,7 @@ type Obs struct {
 	Panicked     bool
 	SendFailures int
 	Interrupts   int
+	SplitEvents  int // timeouts / syncs whose worker half ran later than their main-loop half
 }
 
 func isIn(xs []int, x int) bool {
@@ -643,6 +644,60 @@ func (w *World) deliver(m *Msg) {
 	}
 	w.Mon.onDelivered(n, m, pre)
 	w.runPending(n)
+}
+
+// timeoutD / syncD: the main-loop half of the event happens now, the worker half after d further deliveries to the node (the
+// worker's select picked queued messages first). d = 0, or a half already pending: the ordinary undivided step.
+func (w *World) timeoutD(i, d int) {
+	if d <= 0 || !w.IsCorrect(i) {
+		w.timeout(i)
+		return
+	}
+	n := w.Nodes[i]
+	if n.Crashed || n.H() > w.Cfg.MaxHeight || n.H() == 0 || n.pendingTrig != nil || n.pendingSync != nil {
+		w.timeout(i)
+		return
+	}
+	trig := n.Sch.Trigger()
+	if trig == nil {
+		return
+	}
+	w.Obs.Timeouts++
+	w.guard(n, func() {
+		n.VN.Gc()
+		if n.VN.MainElection(trig) {
+			n.pendingTrig, n.pendingDelay = trig, d
+			w.Obs.SplitEvents++
+		}
+	})
+}
+
+func (w *World) syncD(i, src int, h uint64, d int) {
+	if d <= 0 || !w.IsCorrect(i) || !w.IsCorrect(src) {
+		w.sync(i, src, h)
+		return
+	}
+	n := w.Nodes[i]
+	if n.Crashed || n.pendingTrig != nil || n.pendingSync != nil {
+		w.sync(i, src, h)
+		return
+	}
+	var c *Commit
+	for k := range w.Nodes[src].Commits {
+		if w.Nodes[src].Commits[k].H == h {
+			c = &w.Nodes[src].Commits[k]
+		}
+	}
+	if c == nil || h >= w.Cfg.MaxHeight+1 {
+		return
+	}
+	w.guard(n, func() {
+		n.VN.Gc()
+		if n.VN.MainUpdateState(c.Block, c.Proof) {
+			n.pendingSync, n.pendingDelay = c, d
+			w.Obs.SplitEvents++
+		}
+	})
 }
 
 func (w *World) timeout(i int) {
